@@ -99,6 +99,11 @@ func runC05(t *testing.T, tape *sim.Tape, tier string) *Outcome {
 		}
 		o.stat("runs_overriding_a_builtin_executor", 1)
 	}
+	// a quarter of the runs have the application install a tracer (what reaches the handler must not depend on it)
+	if tape.Draw(4, "tracer") == 3 {
+		w.Srv.SetTracer(&wl.RecTracer{})
+		o.stat("runs_with_tracer", 1)
+	}
 	nconn := 1 + tape.Draw(3, "nconn")
 	maxN := 8
 	if tier == "thorough" {
@@ -396,7 +401,7 @@ func init() {
 	register(&Check{
 		ID: "C05", Bubble: true, Run: runC05,
 		Runs:   map[string]int{"quick": 24000, "thorough": 800000},
-		Rule:   "a case is one run of 1..3 connections x 1..8 (thorough ..24) well-formed requests from the independent grammar (all 67 commands, option orders, binary arguments, letter-case variants, unknown and application-registered commands) under a seeded interleaving of the connections' sends/deliveries/server steps, seeded chunking and clock jumps (1 ms .. 400 days); distinct = distinct (shape, per-connection chunk sequence, interleaving count) signatures; non-trivial = more than one connection or a moving clock",
+		Rule:   "a case is one run of 1..3 connections x 1..8 (thorough ..24) well-formed requests from the independent grammar (all 67 commands, option orders, binary arguments, letter-case variants, unknown and application-registered commands) under a seeded interleaving of the connections' sends/deliveries/server steps, seeded chunking and clock jumps (1 ms .. 400 days); a quarter of the runs with an application tracer installed; distinct = distinct (shape, per-connection chunk sequence, interleaving count) signatures; non-trivial = more than one connection or a moving clock",
 		Real:   []string{"redis.Server connection loop, dispatch table, all executors, argument readers, proto parser"},
 		Stub:   []string{"transport: simulated net.Conn", "clock: synctest bubble clock advanced by the scheduler", "handler: recording double (user + auth handler)"},
 		Assume: []string{"forms whose Redis meaning is disputable (nan scores, '+5' integers, SET .. GET NX, ZRANGE BYSCORE REV, BYLEX, SCAN TYPE, multi-pair HSET) are not generated", "whether ZREV* asks the handler with REV is left to the framework"},
